@@ -544,15 +544,25 @@ class Machine:
     def take_hyp_trap(self):
         self.enter_hyp(self.s['R.PC'], 0x14)
 
-    def take_data_abort(self, ab):
-        """synchronous, non-external data abort of the current instruction"""
+    def take_data_abort(self, ab, external=False, asynchronous=False, debug=False):
+        """TakeDataAbortException() (B1.9.8). The emulator itself only produces synchronous, non-external aborts; `external`, `asynchronous` and `debug`
+        are what an embedder's memory system / debug logic reports through IsExternalAbort() / IsAsyncAbort() / DebugException()"""
         instr = self.s['R.PC']
         lr = (instr + 8) & M32
-        if self.ns_hyp_capable() and (self.s['scr'] & 1) and self.is_hyp():
+        s2 = bool(ab.extra.get('s2'))
+        route_to_monitor = self.sec_ext() and (self.s['scr'] >> 3) & 1 and external
+        take_to_hyp = self.ns_hyp_capable() and (self.s['scr'] & 1) and self.is_hyp()
+        route_to_hyp = False
+        if self.ns_hyp_capable() and not self.is_secure():
+            hcr = self.s['hcr']
+            route_to_hyp = bool(s2 or (not self.is_hyp() and external and asynchronous and (hcr >> 5) & 1) or (not self.is_hyp() and debug and (self.s['hdcr'] >> 8) & 1)
+                                or (self.mode == MODES['usr'] and (hcr >> 27) & 1 and (ab.kind == 'alignment' or (external and not asynchronous))))
+        if route_to_monitor:
+            self.enter_monitor(lr, 0x10)
+        elif take_to_hyp:
             self.enter_hyp(instr, 0x10)
-        elif self.ns_hyp_capable() and not self.is_secure() and (ab.extra.get('s2') or (self.mode == MODES['usr'] and (self.s['hcr'] >> 27) & 1
-                                                                                       and ab.kind == 'alignment')):
-            # a stage-2 abort, or an alignment fault of a Non-secure User mode access with HCR.TGE: routed to Hyp mode, Hyp Trap vector
+        elif route_to_hyp:
+            # a stage-2 abort, an alignment fault of a Non-secure User mode access with HCR.TGE, ...: routed to Hyp mode, Hyp Trap vector
             self.enter_hyp(instr, 0x14)
         else:
             self.enter_mode_common(MODES['abt'], lr, 0x10, mask_a=True)
